@@ -66,14 +66,24 @@ func versionTemplate(id uint16, v int) model.Template {
 		// an options template: five one-octet scope fields (a specifier slice
 		// built by appending one at a time ends up with spare capacity) and
 		// two option fields that carry the version
+		// versions come in groups of three: 3k and 3k+1 differ only in the
+		// lengths of the option fields, 3k+2 differs from 3k only in one scope
+		// element (counts, lengths and option fields are the same)
 		const scopeN = 5
 		total := recLen - scopeN
-		a := 1 + (v*5)%(total-1)
+		g, variant := v/3, v%3
+		a := 1 + (g*5)%(total-1)
+		if variant == 1 {
+			a = 1 + (g*5+3)%(total-1)
+		}
 		t := model.Template{ID: id, Options: true}
 		for i := 0; i < scopeN; i++ {
 			t.Scope = append(t.Scope, model.FieldSpec{ID: verElems[len(verElems)-1-i], Len: 1})
 		}
-		t.Fields = []model.FieldSpec{{ID: verElems[e%len(verElems)], Len: uint16(a)}, {ID: verElems[(e/len(verElems)+e+7)%len(verElems)], Len: uint16(total - a)}}
+		if variant == 2 {
+			t.Scope[g%scopeN].ID = verElems[(g+3)%10]
+		}
+		t.Fields = []model.FieldSpec{{ID: verElems[g%len(verElems)], Len: uint16(a)}, {ID: verElems[(g/len(verElems)+g+7)%len(verElems)], Len: uint16(total - a)}}
 		return t
 	}
 	a := 1 + (v*5)%11
@@ -611,7 +621,11 @@ func genCachePlan(seed int64, prop, tier string) *CachePlan {
 			switch {
 			case role < 6: // decoder
 				if r.Intn(3) == 0 {
-					if v, ok := lastVer[k]; ok && r.Intn(4) == 0 {
+					if v, ok := lastVer[k]; ok && p.Keys[k].ID == optionsShapeID && v%3 == 0 && v+2 <= 38 && r.Intn(2) == 0 {
+						// the same options template with one scope element changed
+						op = CacheOp{Kind: "announce", Key: k, Ver: v + 2}
+						lastVer[k] = v + 2
+					} else if v, ok := lastVer[k]; ok && r.Intn(4) == 0 {
 						// the periodic refresh: the exporter announces the
 						// definition it announced last once more, unchanged
 						op = CacheOp{Kind: "announce", Key: k, Ver: v}
